@@ -9,6 +9,10 @@ namespace ProcSim
 /-- Association list used as a finite map. `set` never creates duplicate keys. -/
 def AMap (K V : Type) := List (K × V)
 
+instance {K V : Type} : Inhabited (AMap K V) := ⟨([] : List (K × V))⟩
+instance {K V : Type} [Repr K] [Repr V] : Repr (AMap K V) := inferInstanceAs (Repr (List (K × V)))
+instance {K V : Type} [DecidableEq K] [DecidableEq V] : DecidableEq (AMap K V) := inferInstanceAs (DecidableEq (List (K × V)))
+
 namespace AMap
 variable {K V : Type} [DecidableEq K]
 
